@@ -303,8 +303,8 @@ def value_sites():
 
     @site("mysql-load-file", only=(MySQLQuery,))
     def _(N, V, Qc):
-        if not isinstance(V, str):
-            raise ValueError("a file name")
+        if not isinstance(V, str) or V == "":
+            raise ValueError("a file name (an empty one means: no file given yet, the builder is incomplete)")
         return MySQLQuery.load(V).into(P.Table("t"))
 
     @site("column-default")
@@ -320,6 +320,28 @@ def value_sites():
     def _(N, V, Qc):
         t = P.Table("t")
         return Qc.from_(t).select(T.JSON(V))
+
+    # the right operand of the JSON operators (constants are wrapped by their own helper)
+    @site("json-contains")
+    def _(N, V, Qc):
+        t = P.Table("t")
+        if not isinstance(V, (str, int, dict, list)):
+            raise ValueError("a key, a scalar written as a plain literal, or a JSON document")
+        return Qc.from_(t).select(t.a).where(t.j.contains(V)).where(t.b == 1)
+
+    @site("json-contained-by,has-key")
+    def _(N, V, Qc):
+        t = P.Table("t")
+        if not isinstance(V, (str, int, dict, list)):
+            raise ValueError("a key, a scalar written as a plain literal, or a JSON document")
+        return Qc.from_(t).select(t.a).where(t.j.contained_by(V) | t.j.has_key(V))
+
+    @site("json-path,value")
+    def _(N, V, Qc):
+        t = P.Table("t")
+        if not isinstance(V, (str, int)) or isinstance(V, bool):
+            raise ValueError("a key, index or path")
+        return Qc.from_(t).select(t.j.get_json_value(V), t.j.get_text_value(V)).where(t.j.get_path_json_value(V).isnull() if isinstance(V, str) else t.b == 1)
 
     @site("orderby,analytic")
     def _(N, V, Qc):
